@@ -212,7 +212,9 @@ def run(c, S, case, cfg, passive, this_can, peer_can, hs_ok, req, req_host, req_
                 return
             GLib.dispatch(en[0].sid)
     pump()
-    rx.buf = rx.buf + rfc9174.encode(dict(kind='contact', flags=1 if peer_can else 0))
+    # reserved bits of the contact header flags are to be ignored by the receiver
+    rsv = [0, 0x02, 0x80, 0xFE][c.choose(4, 'reserved-contact-flags')]
+    rx.buf = rx.buf + rfc9174.encode(dict(kind='contact', flags=(1 if peer_can else 0) | rsv))
     pump()
     msgs1, _r = rfc9174.decode_stream(tx.total)
     sent_init_before_peer = any(m['kind'] == 'SESS_INIT' for m in msgs1)
